@@ -639,6 +639,7 @@ class Tr:
             return f'(Rs.ResV {self.lean_ty(ty[2], self_ty)} {self.lean_ty(ty[1], self_ty)})'
         if isinstance(ty, tuple):
             if ty[0] == 'struct' and ty[1] == 'RsReports': return '(List Rs.Report)'
+            if ty[0] == 'struct' and ty[1] == 'RsFsm': return 'FsmSt'
             if ty[0] == 'struct':
                 n = self_ty if ty[1] == 'Self' else ty[1]
                 return lean_struct(n)
@@ -652,7 +653,8 @@ class Tr:
 
     def err_is_value(self, ty):
         """`Result<T, E>` whose error is a plain value (integer, unit), not a message"""
-        return isinstance(ty, tuple) and ty[0] == 'result' and (ty[2] in INT_TYPES or ty[2] == 'unit')
+        return isinstance(ty, tuple) and ty[0] == 'result' and (ty[2] in INT_TYPES or ty[2] == 'unit' or
+                                                                (isinstance(ty[2], tuple) and ty[2][0] == 'struct' and ty[2][1] in self.it.enums))
 
     def const_value(self, q, owner):
         """integer value of a constant (for masks); None if not a plain integer constant"""
@@ -928,6 +930,14 @@ class Tr:
             s, t = self.ex(args[0], env)
             if t not in ('string', 'strings'): raise TranslateError(f'Err of {t}')
             return f'(Rs.Res.err {s})', ('result', 'lit', 'string')
+        if len(p) == 1 and last == 'rs_fsm_step' and len(args) == 2:
+            # `ItsPayloadFsmContinuous::advance` as translated by tools/src2lean.py (Spec/FsmSrcGen.lean, C09), its answer split back into
+            # the `Result<ItsPayloadWord, AmbigiousError>` of the source by the spec's `lean_prelude` function `classResult`
+            st, tst = self.ex(args[0], env); w, tw = self.ex(args[1], env)
+            if tst != ('struct', 'RsFsm') or tw != 'bytes': raise TranslateError('rs_fsm_step: argument types')
+            rt = ('result', ('struct', 'ItsPayloadWord'), ('struct', 'AmbigiousError'))
+            return (f'(let r := SrcFsm.step {st} (bAt {w} 9) (SrcWords.tdh_no_data {w}) (SrcWords.tdt_packet_done {w}); (r.1, classResult r.2))',
+                    ('tuple', [('struct', 'RsFsm'), rt]))
         if len(p) == 1 and last == 'rs_report_noword' and len(args) == 3:
             o, to = self.ex(args[0], env); ps, _ = self.ex(args[1], env); m, tm = self.ex(args[2], env)
             if to != ('struct', 'RsReports') or tm != 'string': raise TranslateError(f'{last}: argument types {to} {tm}')
@@ -1112,6 +1122,8 @@ class Tr:
                 return f'(match {s} with | some {pn} => {body} | none => false)', 'bool'
         if isinstance(t, tuple) and t[0] == 'result':
             if name == 'is_err': return f'({s}).isErr', 'bool'
+            if name == 'rs_ok_val' and self.err_is_value(t): return f'(Rs.ResV.okVal {s})', t[1]
+            if name == 'rs_err_val' and self.err_is_value(t): return f'(Rs.ResV.errVal {s})', t[2]
             if name == 'is_ok': return f'(!({s}).isErr)', 'bool'
             if name in ('unwrap', 'expect') and not self.err_is_value(t):
                 # `Result::unwrap`: the `Err` case is a panic site; the tie has to show it unreachable (or model it)
@@ -1360,6 +1372,15 @@ class Tr:
             return self.ex(e[1], env, expect)
         if e[0] == 'if':
             return self.if_stmt(e, rest, env, expect, is_tail)
+        if e[0] == 'match' and len(e[2]) == 2 and all(a[0][0] == 'pctor' and len(a[0][2]) == 1 and a[0][2][0][0] == 'pbind' and not a[1] for a in e[2]) \
+                and sorted(a[0][1][-1] for a in e[2]) == ['Err', 'Ok']:
+            # `match r { Ok(x) => A, Err(y) => B }` on a `Result` whose error is a plain value: `let t = r; if t.is_err() {let y = ..; B} else {let x = ..; A}`
+            self.tmpn = getattr(self, 'tmpn', 0) + 1; t = f'm_{self.tmpn}'
+            arms = {a[0][1][-1]: a for a in e[2]}
+            def blk(b): return list(b[1]) if b[0] == 'block' else [('expr', b, True)]
+            okb = [('let', arms['Ok'][0][2][0], None, ('mcall', ('path', [t]), 'rs_ok_val', []))] + blk(arms['Ok'][2])
+            erb = [('let', arms['Err'][0][2][0], None, ('mcall', ('path', [t]), 'rs_err_val', []))] + blk(arms['Err'][2])
+            return self.stmts([('let', ('pbind', t), None, e[1]), ('expr', ('if', ('mcall', ('path', [t]), 'is_err', []), erb, okb), is_tail)] + list(rest), env, expect)
         if e[0] == 'match':
             d = self.match_as_ifs(e, env)
             if d is not None and not rest and self.scrut_is_enum(e, env) and not self.assigned([('expr', e, True)], env)[0]:
@@ -1913,6 +1934,7 @@ def generate(spec, repo):
         L.append(f"structure {OPAQUE['type']} where")
         for key, (rty, field) in OPAQUE['chains'].items():
             L.append(f"  {field} : {tr.lean_ty(P(tokenize(rty)).ty())}    -- {key}")
+    for line in spec.get('lean_prelude', []): L.append(line)
     for q in order:
         L.append(texts[q])
     L.append('/-! kernel-checked: every literal mask was split into contiguous runs correctly -/')
